@@ -4,7 +4,7 @@ use crate::alpha::*;
 use crate::explore::{guard, run_jobs, tree, Job, JobOut, Step};
 use crate::report::{CheckOutput, Sink, Stats, Violation};
 use crate::scalar::{opt_key, opt_same, Scalar};
-use crate::spec::{build, mk, probe_events_clear, probe_events_take, unary_catalogue, Dyn, Kind, Spec, BINARY};
+use crate::spec::{build, entry, mk, probe_events_clear, probe_events_take, unary_catalogue, Dyn, Kind, Spec, BINARY};
 use crate::{Ctx, Tier};
 use serde_json::json;
 use sliding_features::View;
@@ -315,8 +315,18 @@ fn static_grid(ok: Kind, st: &mut Stats, sink: &Sink) {
                 continue;
             }
             st.configs += 1;
+            // the same chain with the harness's type erasure between the views (what every other check
+            // explores): an outer view may see nothing of its inner view but update() and last(), so the
+            // two must agree bit for bit
+            let adj = |k: Kind, n: usize| match k {
+                Kind::Pfe => n.max(3),
+                Kind::Roofing => n.max(2),
+                _ => n,
+            };
+            let erased_spec = mk(ok, adj(ok, no), mk(ik, adj(ik, ni), Spec::echo()));
             'drv: for h in &drivers {
                 let (mut chain, mut a, mut b) = (z::chain(ok, no, ik, ni).unwrap(), z::single(ik, ni).unwrap(), z::single(ok, no).unwrap());
+                let Ok(mut erased) = guard(|| build::<f64>(&erased_spec)) else { continue 'drv };
                 for (i, x) in h.iter().enumerate() {
                     let r = guard(|| {
                         chain.upd(*x);
@@ -324,14 +334,19 @@ fn static_grid(ok: Kind, st: &mut Stats, sink: &Sink) {
                         if let Some(y) = a.get() {
                             b.upd(y);
                         }
-                        (chain.get(), b.get())
+                        erased.update(*x);
+                        (chain.get(), b.get(), erased.last())
                     });
-                    st.transitions += 3;
-                    st.oracle_evals += 1;
+                    st.transitions += 4;
+                    st.oracle_evals += 2;
                     match r {
-                        Ok((c, d)) => {
+                        Ok((c, d, e)) => {
                             if !opt_same::<f64>(c, d) {
                                 sink.push(Violation::new("C01", &label, "chain-vs-decomposition", "f64", &h[..=i], format!("statically typed chain: the chain reports {} but its stand-alone parts report {}", opt_key(c), opt_key(d))).tag("static"));
+                                break 'drv;
+                            }
+                            if !opt_same::<f64>(c, e) {
+                                sink.push(Violation::new("C01", &label, "static-vs-erased", "f64", &h[..=i], format!("the statically typed chain reports {} but the same chain whose views see each other only through update() and last() reports {}", opt_key(c), opt_key(e))).tag("static"));
                                 break 'drv;
                             }
                         }
@@ -340,6 +355,54 @@ fn static_grid(ok: Kind, st: &mut Stats, sink: &Sink) {
                 }
                 st.traces += 1;
             }
+        }
+    }
+}
+
+/// every view directly over the crate's own Echo, statically typed, against the same view over the
+/// harness's erased leaf (the form every other check explores)
+fn static_singles(k: Kind, st: &mut Stats, sink: &Sink) {
+    use crate::static_zoo as z;
+    let mut drivers: Vec<Vec<f64>> = crate::explore::sequences(&Z3, 7);
+    for cyc in crate::explore::cycles(&[0.1, 0.7, -3.3], 3) {
+        drivers.push((0..60).map(|i| cyc[i % cyc.len()]).collect());
+    }
+    for n in [1usize, 2, 3, 5, 8] {
+        let n_adj = match k {
+            Kind::Pfe => n.max(3),
+            Kind::Roofing => n.max(2),
+            _ => n,
+        };
+        let spec = mk(k, n_adj, Spec::echo());
+        if guard(|| z::single(k, n).is_some()).unwrap_or(false) == false || guard(|| build::<f64>(&spec)).is_err() {
+            st.skipped_configs += 1;
+            continue;
+        }
+        st.configs += 1;
+        'drv: for h in &drivers {
+            let (mut s, mut e) = (z::single(k, n).unwrap(), build::<f64>(&spec));
+            for (i, x) in h.iter().enumerate() {
+                let r = guard(|| {
+                    s.upd(*x);
+                    e.update(*x);
+                    (s.get(), e.last())
+                });
+                st.transitions += 2;
+                st.oracle_evals += 1;
+                match r {
+                    Ok((c, d)) => {
+                        if !opt_same::<f64>(c, d) {
+                            sink.push(Violation::new("C01", &spec, "static-vs-erased", "f64", &h[..=i], format!("the view directly over Echo reports {} but over a leaf it sees only through update() and last() it reports {}", opt_key(c), opt_key(d))).tag("static"));
+                            break 'drv;
+                        }
+                    }
+                    Err(_) => continue 'drv,
+                }
+            }
+            st.traces += 1;
+        }
+        if !entry(k).has_n {
+            break;
         }
     }
 }
@@ -423,6 +486,7 @@ pub fn run(ctx: &Ctx) -> CheckOutput {
             let mut st = Stats::default();
             let sink = Sink::new();
             static_grid(e.kind, &mut st, &sink);
+            static_singles(e.kind, &mut st, &sink);
             JobOut { stats: st, viols: sink.take(), samples: vec![json!({"explorer":"TREE+LONG","clause":"statically typed outer over ten inner views","outer":format!("{:?}", e.kind)})] }
         }));
     }
